@@ -15,7 +15,9 @@ if ! ( cd "$S/repo" && git apply --whitespace=nowarn "$SEED/patch.diff" ); then 
 : > "$RES/summary.txt"
 if [ -x "$SEED/demo.sh" ] || [ -f "$SEED/demo.sh" ]; then
 	( cd "$SEED" && timeout 900 bash ./demo.sh "$S/repo" ) > "$RES/demo_changed.log" 2>&1; echo "demo on changed tree: exit=$?" >> "$RES/summary.txt"
-	( cd "$SEED" && timeout 900 bash ./demo.sh /repo ) > "$RES/demo_unchanged.log" 2>&1; echo "demo on unchanged tree: exit=$?" >> "$RES/summary.txt"
+	rsync -a --exclude _build --exclude .git /repo/ "$S/repo_unchanged/"        # demos write their build output into the source dir: never into /repo
+	( cd "$SEED" && timeout 900 bash ./demo.sh "$S/repo_unchanged" ) > "$RES/demo_unchanged.log" 2>&1; echo "demo on unchanged tree: exit=$?" >> "$RES/summary.txt"
+	rm -rf "$S/repo_unchanged"; find "$S/repo" -maxdepth 1 -name "_*" -type d -exec rm -rf {} +
 fi
 if [ $TESTS = 1 ]; then
 	"$V/tools/run_repo_tests.sh" "$S/repo" > "$RES/repo_tests.log" 2>&1; echo "repository tests on changed tree: exit=$? ($(grep -E 'tests passed|tests failed' "$RES/repo_tests.log" | head -1))" >> "$RES/summary.txt"
